@@ -1428,7 +1428,9 @@ func (e *env) judge(rep simagw.Report, aborted bool) {
 		}
 	}
 	if !dropped && !aborted && e.port != nil {
-		if !rep.Unreg[myCall] {
+		if !rep.Unreg[myCall] && !rep.LinkCleanEOF {
+			e.count("unregister_unobservable_link_reset", 1)
+		} else if !rep.Unreg[myCall] {
 			e.vio("exchange:unregister:no-x", "Port.Close returned but the TNC never received an 'x' frame for %q", myCall)
 		} else {
 			e.count("unregister_verified", 1)
